@@ -19,7 +19,7 @@ def rand_poly(rng, shape=None, names=None, maxterms=3, maxexp=3, dtype="int64", 
     if shape is None:
         shape = rng.choice(shapes)
     if names is None:
-        k = rng.choice([1, 1, 2, 2, 3])
+        k = min(rng.choice([1, 1, 2, 2, 3]), len(names_pool))
         names = sorted(rng.sample(list(names_pool), k), key=lambda s: int(s[1:]))
     D = len(names)
     n = rng.randint(1, maxterms)
